@@ -55,6 +55,11 @@ impl TimeZone {
                 }
             };
             let time_type_index = transition_type as usize;
+            if time_type_index >= header.type_count {
+                return Err(TimeZoneError::InvalidTzFile(
+                    "Transition refers to a local time type which doesn't exist",
+                ));
+            }
             transitions.push(Transition::new(transition_time, time_type_index));
         }
 
@@ -97,7 +102,7 @@ impl TimeZone {
             return match (&self.extra_rule, self.transitions.last()) {
                 (Some(rule), _) => Self::rule_to_local_time_type(rule, timestamp),
                 (None, Some(last)) => self.local_time_types[last.local_time_type_index].clone(),
-                (None, None) => self.local_time_types[0].clone(),
+                (None, None) => self.first_local_time_type(),
             };
         }
 
@@ -109,15 +114,34 @@ impl TimeZone {
                 break;
             }
         }
-        self.local_time_types[local_time_type_index].clone()
+        match self.local_time_types.get(local_time_type_index) {
+            Some(local_time_type) => local_time_type.clone(),
+            None => self.first_local_time_type(),
+        }
+    }
+
+    /// The first local time type, which applies before the first transition. Falls back to UTC
+    /// if the file has no local time types (only a footer rule).
+    fn first_local_time_type(&self) -> LocalTimeType {
+        match self.local_time_types.first() {
+            Some(local_time_type) => local_time_type.clone(),
+            None => LocalTimeType::new(0, false),
+        }
     }
 
     fn rule_to_local_time_type(rule: &TransitionRule, timestamp: i64) -> LocalTimeType {
         match rule {
             TransitionRule::Fixed(local_time_type) => local_time_type.clone(),
             TransitionRule::Alternate(altt) => {
-                let std_end_timestamp = altt.local_std_end_timestamp(timestamp);
-                let dst_end_timestamp = altt.local_dst_end_timestamp(timestamp);
+                // At the very ends of the supported range the switch-over days of the year can be
+                // out of range. Standard time applies there.
+                let (std_end_timestamp, dst_end_timestamp) = match (
+                    altt.local_std_end_timestamp(timestamp),
+                    altt.local_dst_end_timestamp(timestamp),
+                ) {
+                    (Some(std_end), Some(dst_end)) => (std_end, dst_end),
+                    _ => return altt.std.clone(),
+                };
 
                 let std_end_unix = std_end_timestamp - altt.std.utoff as i64;
                 let dst_end_unix = dst_end_timestamp - altt.dst.utoff as i64;
